@@ -107,7 +107,7 @@ class Contract:
             elif fn == "delegates":
                 self.delegates = (ast.literal_eval(call.args[0]), kw)
             elif fn == "sets":
-                self.sets.append((ast.literal_eval(call.args[0]), call.args[1]))
+                self.sets.append((ast.literal_eval(call.args[0]), call.args[1], "assume_only" in kw))
             elif fn == "note":
                 self.notes.append(ast.literal_eval(call.args[0]))
             elif fn == "frame":
@@ -194,7 +194,7 @@ class Contract:
             for fname, texpr in self.fields.items():
                 ty = self.type_of(texpr)
                 selfv.attrs[fname] = interp.born(ty.fresh(f"{short.split('.')[-2]}_{fname}", ctx))
-        for fname, ex in self.sets:
+        for fname, ex, _ao in self.sets:
             bound["self"].attrs[fname] = self.eval_spec(interp, ex, env)
         # result
         if self.returns_expr is not None:
